@@ -39,7 +39,7 @@ pub fn run(case: &Value, ctx: &Ctx) -> Outcome {
     // recover operands: walk the ops, using the model's semantics for scale/setmono operands derived from final
     // (operands are not emitted separately; they are identifiable because at most MaxOps are applied)
     // simpler and exact: recompute each candidate operand set and pick the one reproducing `final`.
-    let scale_opts = [1.0 / 3.0, 2.0, 1000.0, 1.0 / 10000.0];
+    let scale_opts = [1.0 / 3.0, 2.0, 1000.0, 1.0 / 10000.0, 1e-20, 1e20];
     let mono_opts = [(0.0, 5.0), (9.0, 0.5), (1e16, 3e15)];
     fn apply(ctx: &Ctx, shape: &mut Vec<usize>, x: &mut Vec<f64>, op: &str, s: f64, m: (f64, f64), folded_by_tool: &mut bool) {
         match op {
@@ -76,7 +76,7 @@ pub fn run(case: &Value, ctx: &Ctx) -> Outcome {
                 m_idx /= mono_opts.len();
                 apply(ctx, &mut sh, &mut x, op, s, m, &mut folded_by_tool);
             }
-            if sh == fin_shape && x.len() == fin.len() && x.iter().zip(&fin).all(|(a, b)| close(*a, *b, 1e-12)) {
+            if sh == fin_shape && x.len() == fin.len() && x.iter().zip(&fin).all(|(a, b)| (a - b).abs() <= 1e-12 * a.abs().max(b.abs())) {
                 cur_shape = sh;
                 cur = x;
                 found = true;
@@ -106,7 +106,9 @@ pub fn run(case: &Value, ctx: &Ctx) -> Outcome {
         let mut names: Vec<&String> = stats.keys().collect();
         names.sort_by_key(|k| !matches!(k.as_str(), "f2" | "f3" | "f4" | "fst"));
         let joined = names.iter().map(|k| cli_name(k)).collect::<Vec<_>>().join(",");
-        let text = cli::write_text(&cur_shape, &cur, 17);
+        // seventeen decimals cannot carry entries of size 1e-20: those spectra travel as npy (lossless)
+        let tiny = cur.iter().any(|v| *v != 0.0 && v.abs() < 1e-3);
+        let text = if tiny { cli::write_npy(&cur_shape, &cur) } else { cli::write_text(&cur_shape, &cur, 17) };
         let r = cli::sfs(ctx, &["stat", "-s", &joined, "--precision", "12"], Some(&text));
         if r.ok() {
             for (k, tok) in names.iter().zip(String::from_utf8_lossy(&r.stdout).trim().split(',')) {
@@ -124,7 +126,9 @@ pub fn run(case: &Value, ctx: &Ctx) -> Outcome {
     for c in case["claims"].as_array().unwrap() {
         let name = c.as_str().unwrap();
         if let (Ok(Ok(b)), Ok(Ok(f))) = (guarded(|| lib_stat(name, &base_scs)), guarded(|| lib_stat(name, &cur_scs))) {
-            let want = if scaled.contains(&name) { b * factor } else { b };
+            // a statistic that scales with the spectrum is compared after dividing the factor out again (the factors go down to
+            // 1e-20: a tolerance with an absolute floor would compare nothing there)
+            let (f, want) = if scaled.contains(&name) { (f / factor, b) } else { (f, b) };
             out.check(stat_close(f, want, 1e-9), || format!("statrel/relation/{name}"), || json!({"base": b.to_string(), "final": f.to_string(), "factor": factor, "ops": ops}));
         }
     }
